@@ -136,20 +136,24 @@ def s_driver_spec(eng, result, part):
         try:
             out = []
             for i in range(n):
-                tq, xq = eng.fresh("tq", "Real"), eng.fresh("xq", "Real")
+                # a batch of two arbitrary points of element i (different times): every entry of the returned array must be the
+                # pointwise value of ITS point -- nothing may be decided once per batch
+                tqs = [eng.fresh("tq", "Real"), eng.fresh("tq", "Real")]
+                xqs = [eng.fresh("xq", "Real"), eng.fresh("xq", "Real")]
                 gam = elems[i].fields["gamma_space"]
                 eng.externals["POINT_PIECE"] = gam
-                r = eng.call(residual, [Vec([tq]), Vec([xq]), gam])
-                val = r.items[0]
-                want = z3.RealVal(0)
-                for j in range(n):
-                    want = want + to_real(Phi.items[j]) * z3.If(tq > T0(z3.IntVal(j)), EVAL(z3.IntVal(j), tq, xq), z3.RealVal(0))
-                gx, gy = C.GX(gam.term, xq), C.GY(gam.term, xq)
-                if g["has_m0"]:
-                    want = want + M0U0(tq, gx, gy)
-                if g["has_g"]:
-                    want = want - GFUN(tq, gx, gy)
-                out.append(to_real(val) == want)
+                r = eng.call(residual, [Vec(tqs), Vec(xqs), gam])
+                for k, (tq, xq) in enumerate(zip(tqs, xqs)):
+                    val = r.items[k]
+                    want = z3.RealVal(0)
+                    for j in range(n):
+                        want = want + to_real(Phi.items[j]) * z3.If(tq > T0(z3.IntVal(j)), EVAL(z3.IntVal(j), tq, xq), z3.RealVal(0))
+                    gx, gy = C.GX(gam.term, xq), C.GY(gam.term, xq)
+                    if g["has_m0"]:
+                        want = want + M0U0(tq, gx, gy)
+                    if g["has_g"]:
+                        want = want - GFUN(tq, gx, gy)
+                    out.append(to_real(val) == want)
             return z3.And(*out)
         finally:
             eng.spec_mode = saved
